@@ -3,6 +3,7 @@ package server
 import (
 	"bytes"
 	"context"
+	"encoding/binary"
 	"errors"
 	"github.com/aldas/go-modbus-client/packet"
 )
@@ -17,26 +18,50 @@ type ModbusTCPAssembler struct {
 func (m *ModbusTCPAssembler) ReceiveRead(ctx context.Context, received []byte, bytesRead int) (response []byte, closeConnection bool) {
 	m.received.Write(received)
 
-	n, err := packet.LooksLikeModbusTCP(m.received.Bytes(), false)
-	if err == packet.ErrTCPDataTooShort {
-		return nil, false // wait for more data to arrive
-	} else if err != nil {
-		return err.(*packet.ErrorParseTCP).Bytes(), false
+	// single read can complete more than one request (client does not have to wait for the response before sending
+	// next request). Answer all complete requests in the order they were received.
+	for {
+		n, err := packet.LooksLikeModbusTCP(m.received.Bytes(), false)
+		if err == packet.ErrTCPDataTooShort {
+			return response, false // wait for more data to arrive
+		}
+		if err == packet.ErrIsNotTCPPacket {
+			// buffered data is not Modbus TCP and there is no way to find where next packet would start. Drop it so
+			// following requests are not answered with the same error over and over again.
+			m.received.Reset()
+			return append(response, err.(*packet.ErrorParseTCP).Bytes()...), false
+		}
+		if m.received.Len() < n {
+			return response, false // packet is not complete yet, wait for more data to arrive
+		}
+		frame := m.received.Next(n) // consume the packet, whatever we answer to it
+		if err != nil {
+			response = append(response, err.(*packet.ErrorParseTCP).Bytes()...) // unsupported function code
+			continue
+		}
+		response = append(response, m.handle(ctx, frame)...)
 	}
+}
 
-	p, err := packet.ParseTCPRequest(m.received.Next(n))
+func (m *ModbusTCPAssembler) handle(ctx context.Context, frame []byte) []byte {
+	p, err := packet.ParseTCPRequest(frame)
 	if err != nil {
-		return err.(*packet.ErrorParseTCP).Bytes(), false
+		return err.(*packet.ErrorParseTCP).Bytes()
 	}
 
 	resp, err := m.Handler.Handle(ctx, p)
 	if err != nil {
+		// exception sent to the client is always addressed to the request it answers
+		exception := packet.ErrorResponseTCP{Code: packet.ErrServerFailure}
 		var target *packet.ErrorParseTCP
-		if errors.As(err, &target) {
-			return target.Bytes(), false
+		if errors.As(err, &target) && target != nil {
+			exception.Code = target.Packet.Code
 		}
-		return packet.NewErrorParseTCP(packet.ErrUnknown, err.Error()).Bytes(), false
+		exception.TransactionID = binary.BigEndian.Uint16(frame[0:2])
+		exception.UnitID = frame[6]
+		exception.Function = frame[7]
+		return exception.Bytes()
 	}
 
-	return resp.Bytes(), false
+	return resp.Bytes()
 }
